@@ -959,6 +959,11 @@ func checkSignature(algo SignatureAlgorithm, signed, signature []byte, publicKey
 		} else if len(rest) != 0 {
 			return errors.New("x509: trailing data after DSA signature")
 		}
+		// encoding/asn1 tolerates extra members at the end of a SEQUENCE: only the DER
+		// encoding of (r, s) itself is a signature value.
+		if der, err := asn1.Marshal(*dsaSig); err != nil || !bytes.Equal(der, signature) {
+			return errors.New("x509: DSA signature is not a DER SEQUENCE of two INTEGERs")
+		}
 		if dsaSig.R.Sign() <= 0 || dsaSig.S.Sign() <= 0 {
 			return errors.New("x509: DSA signature contained zero or negative values")
 		}
@@ -972,6 +977,11 @@ func checkSignature(algo SignatureAlgorithm, signed, signature []byte, publicKey
 			return err
 		} else if len(rest) != 0 {
 			return errors.New("x509: trailing data after ECDSA signature")
+		}
+		// encoding/asn1 tolerates extra members at the end of a SEQUENCE: only the DER
+		// encoding of (r, s) itself is a signature value.
+		if der, err := asn1.Marshal(*ecdsaSig); err != nil || !bytes.Equal(der, signature) {
+			return errors.New("x509: ECDSA signature is not a DER SEQUENCE of two INTEGERs")
 		}
 		if ecdsaSig.R.Sign() <= 0 || ecdsaSig.S.Sign() <= 0 {
 			return errors.New("x509: ECDSA signature contained zero or negative values")
